@@ -106,6 +106,56 @@ def shard_fn(sh):
     return st
 
 
+WIDE_NCAT = 16
+
+
+def wide_sets():
+    s1 = [s for r in (1, 2, 3) for s in itertools.combinations(range(WIDE_NCAT), r)]
+    s2 = [s for r in (1, 2) for s in itertools.combinations(range(WIDE_NCAT), r)]
+    return s1, s2
+
+
+def wide_shard(sh):
+    """an inventory with two-digit positions: 16 shipped categories, the document [a b a][b c], every dictionary {a: s1, b: s2} with
+    |s1| <= 3 and |s2| <= 2 (all position sets, among them those whose digit strings coincide such as (1,2,13) and (12,13))"""
+    lo, hi = sh
+    parsing = model()
+    st = core.Stats()
+    cats = data.targets('en')[:WIDE_NCAT]
+    s1s, s2s = wide_sets()
+    doc_words = (('a', 'b', 'a'), ('b', 'c'))
+    for s1 in s1s[lo:hi]:
+        for s2 in s2s:
+            dct = {'a': s1, 'b': s2}
+            cdict = {w: [cats[j] for j in s] for w, s in dct.items()}
+            st.count('cases')
+            st.count('wide_cases')
+            st.count('nontrivial')
+            docs, srs = make_case(doc_words, WIDE_NCAT, 0)
+            orig = [(t.copy(), d.copy()) for t, d in srs]
+            base = dict(doc=[list(s) for s in doc_words], dictionary={w: [str(c) for c in v] for w, v in cdict.items()}, form='list', ncat=WIDE_NCAT, engine='c17_wide', sets=[list(s1), list(s2)])
+            try:
+                rd, rs = parsing.apply_category_filters(docs, srs, list(cats), dict(cdict))
+            except Exception as e:
+                st.violation('raises', f'apply_category_filters raised {e!r}', **base)
+                continue
+            for si, ws in enumerate(doc_words):
+                tag, dep = rs[si]
+                if not np.array_equal(dep, orig[si][1]) or [t.word for t in rd[si]] != list(ws):
+                    st.violation('dep_scores', f'sentence {si}: dependency scores or tokens were modified', **base)
+                exp = orig[si][0].copy()
+                for i, w in enumerate(ws):
+                    if w in dct:
+                        for j in range(WIDE_NCAT):
+                            if j not in dct[w]:
+                                exp[i, j] = np.float32(LNV)
+                if tag.shape != exp.shape or not np.array_equal(tag, exp):
+                    bad = np.argwhere(tag != exp)[:3].tolist() if tag.shape == exp.shape else 'shape'
+                    st.violation('mask/wide_inventory', f'sentence {si}: tag scores differ from the reference mask at {bad} (dictionary positions a:{s1} b:{s2})', **base)
+        st.observe('wide', s1)
+    return st
+
+
 def data_part(st):
     """finite and complete: every shipped dictionary category is in its inventory; every shipped category string is well formed"""
     for variant in ('en',):
@@ -169,10 +219,13 @@ def check(tier, seed):
         for lo in range(0, nd, 6):
             shards.append((ncat, lo, min(nd, lo + 6)))
     st = core.pmap(shard_fn, core.rotate(shards, seed))
+    n1 = len(wide_sets()[0])
+    st.merge(core.pmap(wide_shard, [(lo, min(n1, lo + 24)) for lo in range(0, n1, 24)]))
     data_part(st)
     st.sample(dict(doc=[['a', 'b']], dictionary={'a': ['NP']}, expected='row of a keeps NP and gets -1e33 elsewhere; row of b untouched'))
     return core.finish(PROP, tier, seed, 'exploration', st, t0,
-                       rule=('every document of <=2 sentences x <=2 tokens over 3 words x every dictionary mapping <=2 of the words to every non-empty subset of 3 (4 in thorough) categories, list and single-sentence call forms, '
+                       rule=('every document of <=2 sentences x <=2 tokens over 3 words x every dictionary mapping <=2 of the words to every non-empty subset of 3 (4 in thorough) categories, list and single-sentence call forms; '
+                             'a 16-category inventory (two-digit positions) with every dictionary {a: <=3 positions, b: <=2 positions} on a fixed 5-token document; '
                              'distinct score in every cell: the result must equal the reference mask from the statement, dependency arrays bit-identical, tokens same objects in the same order. '
                              'Data part (complete): every cat_dict.en entry is in targets.en by value, all 3469 shipped category strings are well formed, inventories duplicate-free, the shipped dictionary applied to the shipped inventory. '
                              'non-trivial = documents containing a dictionary word'),
@@ -193,6 +246,13 @@ def replay(rec):
         hits = {k: v for k, v in st.viol.items() if any(r['dictionary'] == rec['dictionary'] and r['form'] == rec['form'] for r in v)}
         for k, v in (hits or st.viol).items():
             print('REPRODUCED', k, v[0]['what'])
+        return 1 if st.viol else 0
+    if rec.get('engine') == 'c17_wide':
+        s1s, _ = wide_sets()
+        k = s1s.index(tuple(rec['sets'][0]))
+        st = wide_shard((k, k + 1))
+        for kk, v in st.viol.items():
+            print('REPRODUCED', kk, v[0]['what'])
         return 1 if st.viol else 0
     data_part(st)
     for k, v in st.viol.items():
